@@ -408,7 +408,7 @@ pub fn run(ctx: &RunCtx) -> i32 {
     ];
     neighbours.par_iter().for_each(|cfg| {
         let mut r = Report::new();
-        let ex = if thorough { 4 } else { 3 };
+        let ex = if thorough { 4 } else { 2 };
         let st = bfs(cfg, &apps, &Mon::new(ex), 2 * ex + 1, 1_000_000, &mut r);
         r.states = st.states;
         r.transitions = st.transitions;
@@ -460,7 +460,7 @@ pub fn run(ctx: &RunCtx) -> i32 {
         Finish {
             level: "model_checking",
             rule: format!("breadth-first exploration of the real long-term client on both transports, up to {} request/response exchanges (depth {}), over {{Send (empty application list, or one that pre-populates USERNAME / REALM / NONCE / PASSWORD-ALGORITHM(S) / USERHASH / both integrity attributes), Indicate, Timer, AdvanceTo(beyond), Deliver of 31 server behaviours (two 401 challenges whose cookie nonce also sets unassigned feature bits) (two 401 challenges and one 438 also with their attributes in the opposite order): 401 x {{plain nonce; the realm in another letter case with cookie nonce + anonymity; another realm; cookie nonce with password-algorithms bit and [MD5,SHA256] / [MD5] / [SHA256,MD5]+anonymity / unsupported list / [unknown,SHA256] / [MD5,unknown with parameters]+anonymity; anonymity only; missing realm; missing nonce; algorithms bit without the attribute}}, 438 with a new nonce x {{no MAC, MI, SHA256}} and without nonce, success x {{none, MI, SHA256, MI / SHA256 under another password}}, errors 400/420/500 with and without integrity, an authenticated indication}}. Replies are built by the reference codec and keyed from the request's PASSWORD-ALGORITHM; server replies are not restricted to what an RFC server would send next. Monitor: first request free of the eight credential attributes; a complete 401 / a 438 with nonce yields Retry; every later request is judged by the independent RFC 8489 9.2.4 acceptance function against the most recent challenge (username or userhash, realm, nonce, password algorithms echo and choice, MAC under MD5/SHA-256(user:realm:password)) and must use SHA-256 integrity iff algorithms were offered; success and ordinary error responses are delivered only if a MAC of the right kind verifies, and are delivered when the request was acceptable and the MAC verifies; indications refused both ways; the password's bytes occur in no packet", exchanges, 2 * exchanges + 1),
-            assumptions: vec!["clients with a neighbour (3 / thorough 4 exchanges): before the client under test is built, another client object on the same thread - same user name and another password, or the other way round, or another user name and the same password - completes two authenticated long-term exchanges (MD5 and SHA-256 keyed) and is dropped; the client under test is judged exactly as if it were alone".into(), "three user / password sets (short ASCII; 70-byte user name with 129-byte password; non-ASCII user name with a password rewritten by OpaqueString enforcement), the latter two one exchange shallower; three realms (one differing from the first only in letter case)".into(), "a 438 carries a nonce with the same cookie bits as the challenge in force (and repeats PASSWORD-ALGORITHMS when the bit is set); a reply to a request sent under an older challenge is only required not to be delivered unauthenticated".into(), "inconsistent challenges (PASSWORD-ALGORITHMS without the cookie bit or vice versa) are explored for robustness but requests are not judged against them".into()],
+            assumptions: vec!["clients with a neighbour (2 / thorough 4 exchanges): before the client under test is built, another client object on the same thread - same user name and another password, or the other way round, or another user name and the same password - completes two authenticated long-term exchanges (MD5 and SHA-256 keyed) and is dropped; the client under test is judged exactly as if it were alone".into(), "three user / password sets (short ASCII; 70-byte user name with 129-byte password; non-ASCII user name with a password rewritten by OpaqueString enforcement), the latter two one exchange shallower; three realms (one differing from the first only in letter case)".into(), "a 438 carries a nonce with the same cookie bits as the challenge in force (and repeats PASSWORD-ALGORITHMS when the bit is set); a reply to a request sent under an older challenge is only required not to be delivered unauthenticated".into(), "inconsistent challenges (PASSWORD-ALGORITHMS without the cookie bit or vice versa) are explored for robustness but requests are not judged against them".into()],
             required_symbols: vec!["bfs-configs", "first-request-clean", "retry-after-401", "retry-after-438", "request-accepted-by-reference-server", "authenticated-response-delivered", "unauthenticated-response-rejected", "indication-refused", "indication-not-delivered", "clients-with-a-neighbour"],
             min_outcomes: 8,
             exhaustive: true,
